@@ -115,17 +115,17 @@ func (o Op) String() string {
 
 // Case is one generated case; it is also the replay unit (JSON).
 type Case struct {
-	G        int    `json:"g"`
-	Warm     string `json:"warm"`               // cold | parse | query | one | targets
-	WarmOne  int    `json:"warm_one,omitempty"` // model warmed when Warm == "one"
-	Prepare  bool   `json:"prepare"`            // Config.PrepareStmt
-	Sess     string `json:"sess,omitempty"`     // "" | "call" | "goroutine": prepared statements through db.Session(&gorm.Session{PrepareStmt: true}) derived per call / once per goroutine from the shared handle (opened without Config.PrepareStmt)
-	SkipTx   bool   `json:"skip_tx"`            // Config.SkipDefaultTransaction
-	Procs    int    `json:"procs"`              // GOMAXPROCS during the concurrent run (0 = unchanged)
-	MaxOpen  int    `json:"max_open"`           // SetMaxOpenConns of the pool (0 = unbounded)
-	Cfg      []string `json:"cfg,omitempty"`    // gorm.Config switches / dialector / logger / plugin (cfgNames)
-	Root     string `json:"root,omitempty"`     // the shared handle: "" = the handle gorm.Open returned, or one derived from it before the barrier (rootNames)
-	Programs [][]Op `json:"programs"`
+	G        int      `json:"g"`
+	Warm     string   `json:"warm"`               // cold | parse | query | one | targets
+	WarmOne  int      `json:"warm_one,omitempty"` // model warmed when Warm == "one"
+	Prepare  bool     `json:"prepare"`            // Config.PrepareStmt
+	Sess     string   `json:"sess,omitempty"`     // "" | "call" | "goroutine": prepared statements through db.Session(&gorm.Session{PrepareStmt: true}) derived per call / once per goroutine from the shared handle (opened without Config.PrepareStmt)
+	SkipTx   bool     `json:"skip_tx"`            // Config.SkipDefaultTransaction
+	Procs    int      `json:"procs"`              // GOMAXPROCS during the concurrent run (0 = unchanged)
+	MaxOpen  int      `json:"max_open"`           // SetMaxOpenConns of the pool (0 = unbounded)
+	Cfg      []string `json:"cfg,omitempty"`      // gorm.Config switches / dialector / logger / plugin (cfgNames)
+	Root     string   `json:"root,omitempty"`     // the shared handle: "" = the handle gorm.Open returned, or one derived from it before the barrier (rootNames)
+	Programs [][]Op   `json:"programs"`
 }
 
 func (c *Case) String() string {
@@ -294,7 +294,7 @@ var (
 	sessKinds = map[string]bool{"create": true, "batch": true, "find": true, "first": true, "count": true, "pluck": true, "update": true, "updates": true, "save": true, "delete": true, "tree": true, "preload": true}
 	cfgNames  = []string{"queryfields", "batchsize", "fullsave", "translate", "propagate", "logger", "replacer", "noreturning", "plugin"}
 	rootNames = []string{"session", "ctx", "newdb", "cond"}
-	spellUses  = []string{"select-find", "select-updates", "omit-updates", "map-updates", "where-map", "pluck", "omit-create"}
+	spellUses = []string{"select-find", "select-updates", "omit-updates", "map-updates", "where-map", "pluck", "omit-create"}
 )
 
 // palette: which model families a goroutine may use (the relation-free models always).
@@ -601,6 +601,18 @@ func buildSlice(m, g int, keys []int, v int) interface{} {
 	return p.Interface()
 }
 
+// pointerSlice turns *[]T into *[]*T (same elements).
+func pointerSlice(v interface{}) interface{} {
+	src := reflect.ValueOf(v).Elem()
+	dst := reflect.MakeSlice(reflect.SliceOf(reflect.PointerTo(src.Type().Elem())), 0, src.Len())
+	for i := 0; i < src.Len(); i++ {
+		dst = reflect.Append(dst, src.Index(i).Addr())
+	}
+	p := reflect.New(dst.Type())
+	p.Elem().Set(dst)
+	return p.Interface()
+}
+
 // changes: the columns an update writes, as column/value pairs (two columns where the model has two).
 func changes(m, v int) map[string]interface{} {
 	switch m {
@@ -767,6 +779,9 @@ func exec(db *gorm.DB, g int, o Op) string {
 			keys[i] = 3 + (o.A-1+i)%(nKeys-2)
 		}
 		v := buildSlice(o.M, g, keys, o.V)
+		if o.V%2 == 1 {
+			v = pointerSlice(v) // *[]*T instead of *[]T
+		}
 		r := db.Create(v)
 		return fmt.Sprintf("%s ra=%d %s", errText(r.Error), r.RowsAffected, render(v))
 	case "spell":
@@ -857,7 +872,12 @@ func exec(db *gorm.DB, g int, o Op) string {
 		return fmt.Sprintf("%s ra=%d %s", errText(r.Error), r.RowsAffected, render(a))
 	case "find":
 		out := newSlice(o.M)
-		r := inRange(db, o.M, g).Order(modelTables[o.M] + ".id").Find(out)
+		var r *gorm.DB
+		if o.V%3 == 2 { // inline conditions
+			r = db.Order(modelTables[o.M]+".id").Find(out, modelTables[o.M]+".id BETWEEN ? AND ?", keyOf(g, 0), keyOf(g, rangeSize-1))
+		} else {
+			r = inRange(db, o.M, g).Order(modelTables[o.M] + ".id").Find(out)
+		}
 		return fmt.Sprintf("%s ra=%d %s", errText(r.Error), r.RowsAffected, render(out))
 	case "first":
 		out := newModel(o.M)
@@ -890,7 +910,13 @@ func exec(db *gorm.DB, g int, o Op) string {
 		r := db.Model(v).Update(col, ch[col])
 		return fmt.Sprintf("%s ra=%d", errText(r.Error), r.RowsAffected)
 	case "updates":
-		r := inRange(db.Model(newModel(o.M)), o.M, g).Where(modelTables[o.M]+".id >= ?", keyOf(g, o.A)).Updates(changes(o.M, o.V))
+		var with interface{} = changes(o.M, o.V)
+		if o.V%2 == 1 { // a struct: its non-zero fields
+			v := build(o.M, g, o.A, 0, o.V)
+			reflect.ValueOf(v).Elem().FieldByName("ID").SetUint(0)
+			with = v
+		}
+		r := inRange(db.Model(newModel(o.M)), o.M, g).Where(modelTables[o.M]+".id >= ?", keyOf(g, o.A)).Updates(with)
 		return fmt.Sprintf("%s ra=%d", errText(r.Error), r.RowsAffected)
 	case "delete":
 		r := db.Delete(newModel(o.M), keyOf(g, o.A))
@@ -1075,7 +1101,12 @@ func exec(db *gorm.DB, g int, o Op) string {
 	case "query":
 		col := firstColumn(o.M)
 		tb := modelTables[o.M]
-		switch o.V % 3 {
+		switch o.V % 4 {
+		case 3: // a chain derived from the shared handle as argument of another chain (sub-query)
+			out := newSlice(o.M)
+			sub := inRange(db.Model(newModel(o.M)), o.M, g).Select("id").Where(tb+".id <> ?", keyOf(g, o.A))
+			r := db.Where(tb+".id IN (?)", sub).Order(tb + ".id").Find(out)
+			return fmt.Sprintf("%s ra=%d %s", errText(r.Error), r.RowsAffected, render(out))
 		case 0:
 			out := newSlice(o.M)
 			r := inRange(db, o.M, g).Where(db.Not(tb+"."+col+" = ?", changes(o.M, o.V)[col]).Or(tb+".id = ?", keyOf(g, o.A))).Order(tb + ".id").Find(out)
@@ -1086,7 +1117,7 @@ func exec(db *gorm.DB, g int, o Op) string {
 			return fmt.Sprintf("%s ra=%d %s", errText(r.Error), r.RowsAffected, render(out))
 		}
 		var out []map[string]interface{}
-		r := inRange(db.Model(newModel(o.M)), o.M, g).Select("CAST(" + col + " AS text) AS v, count(*) AS n").Group(col).Having("count(*) > ?", 0).Order("v").Find(&out)
+		r := inRange(db.Model(newModel(o.M)), o.M, g).Select("CAST("+col+" AS text) AS v, count(*) AS n").Group(col).Having("count(*) > ?", 0).Order("v").Find(&out)
 		parts := make([]string, len(out))
 		for i, m := range out {
 			parts[i] = fmt.Sprintf("%v:%v", m["v"], m["n"])
@@ -1815,7 +1846,7 @@ func runCase(rt *rapid.T) {
 }
 
 func TestC07(t *testing.T) {
-	evid.Rule("C07: G in 2..32 goroutines (four size buckets) released by one barrier, each running 1-8 operations (Create single/batch/with nested associations, Save, Find, First, Count, Pluck, Preload incl. nested, relation Joins, Update, Updates, Delete, Transaction blocks with nested blocks and rollback, Association Append/Replace/Delete/Clear/Find/Count, and statements that cannot be prepared: Raw/Table/Exec on a missing table, a missing column - three texts each, shared by all goroutines; column names passed to Select/Omit/Updates(map)/Where(map)/Pluck in five spellings: database name, field name, lowerCamel, UPPER_SNAKE, Title_Snake) through one shared *gorm.DB over a cyclic family of six related model types (belongs-to, has-one, has-many, many-to-many), a second family (one target type with four has-many/has-one owner types) and two relation-free types, on explicit keys private to the goroutine; in a third of the cases all goroutines start with the same statement text (failing or good); schema cache cold / one type parsed / only the shared target type parsed and queried (owners first used concurrently) / all parsed / all queried before the barrier; PrepareStmt off / Config.PrepareStmt / db.Session(&gorm.Session{PrepareStmt: true}) derived per call or once per goroutine from a handle opened without it; default transactions on/off; pool unbounded or 1/2/4; GOMAXPROCS 1/2/4/default; generated Gosched points. Judged by the race detector (report count read after every case), by equality of every result (error texts, recovered panics included) and of all final rows with a serial run on a fresh database, and by a deadlock watchdog. Non-trivial = part of the schema cache is cold at the barrier (G >= 2 always), or warm cache with >= 4 goroutines and >= 1 association/preload/joins/nested-create operation; distinct = configuration + programs")
+	evid.Rule("C07: G in 2..32 goroutines (four size buckets) released by one barrier, each running 1-8 operations through ONE shared *gorm.DB (the opened handle, or one derived from it before the barrier: Session{}, WithContext, Session{NewDB}, a conditioned handle) on explicit keys private to the goroutine. Operations: Create (single, []T, []*T 2-6 rows, nested associations, maps, []map, CreateInBatches, OnConflict), Save, FirstOrInit/FirstOrCreate with struct Attrs / map Assign, Find (chain and inline conditions, struct conditions of the model's and of a foreign type, smaller destination struct, Scopes, Not/Or groups, Distinct/Limit/Offset, Group/Having into maps, sub-query built from the shared handle), First/Take/Last, FindInBatches, Count, Pluck, Row, Rows+ScanRows, Raw.Scan, Exec, ToSQL, Preload incl. nested, relation Joins, Update/Updates (map, struct)/UpdateColumn(s), clause.Returning on update and delete, Delete (key, range, Unscoped, Select(clause.Associations)), Set/Get/InstanceSet/InstanceGet, Migrator HasTable/HasColumn (also through Table()), Transaction blocks (nested, rollback), manual Begin/SavePoint/RollbackTo/Commit, Connection blocks, Association Append/Replace/Delete/Clear/Find/Count, statements that cannot be prepared (Raw/Table/Exec on a missing table, a missing column; three texts each, shared by all goroutines), column names in five spellings for Select/Omit/Updates(map)/Where(map)/Pluck; a quarter of the plain operations run on a per-call Session with SkipHooks/QueryFields/FullSaveAssociations/NewDB/Context/SkipDefaultTransaction/DryRun/CreateBatchSize/Debug. Models: a cyclic family of six related types (belongs-to, has-one, has-many, many-to-many), a second family (one target type with four has-many/has-one owner types), two relation-free types with a json serializer field, a Valuer/Scanner type, an embedded struct, tracked times, soft delete and hook methods. In a third of the cases all goroutines start with the same statement text (failing or good). Schema cache cold / one type parsed / only the shared target type parsed and queried (owners first used concurrently) / all parsed / all queried before the barrier; PrepareStmt off / Config.PrepareStmt / db.Session(&gorm.Session{PrepareStmt: true}) derived per call or once per goroutine; Config switches QueryFields, CreateBatchSize, FullSaveAssociations, TranslateError, PropagateUnscoped, an Info-level Logger, a NameReplacer naming strategy, a dialector without RETURNING, a Plugin registering callbacks (with Match) in every processor; default transactions on/off; pool unbounded or 1/2/4; GOMAXPROCS 1/2/4/default; generated Gosched points. Judged by the race detector (report count read after every case), by equality of every result (error texts, recovered panics included) and of all final rows with a serial run on a fresh database, and by a deadlock watchdog. Non-trivial = part of the schema cache is cold at the barrier (G >= 2 always), or warm cache with >= 4 goroutines and >= 1 association/preload/joins/nested-create operation; distinct = configuration + programs")
 	evid.Assume("SQLite's single-writer rule is hidden by the harness: connections run read_uncommitted and writers queue on one harness mutex (BEGIN..COMMIT or one autocommit write); write paths of two goroutines therefore overlap only outside transactions (SkipDefaultTransaction cases)")
 	evid.Assume("the runtime's schedule is sampled, not enumerated; the race detector reports unsynchronised conflicting accesses it observes within its history window")
 	if !raceEnabled {
